@@ -200,14 +200,14 @@ theorem accept_QI (s : State) : QE B s (acceptStep cfg s) := by
 theorem ticks_QI (s : State) (h1 : ∀ a b, B (.timing a b) = false) (h2 : ∀ a b c d, B (.traffic a b c d) = false)
     (h3 : ∀ a b c, B (.active a b c) = false) : QE B s (ticks cfg s) := by
   unfold ticks
-  have g1 : QE B s (if cfg.timing && s.now - s.tTiming > 900 then { sendTiming cfg s with tTiming := s.now } else s) := by
+  have g1 : QE B s (if cfg.timing && s.now - s.tTiming > cfg.pTiming then { sendTiming cfg s with tTiming := s.now } else s) := by
     split
     · unfold sendTiming
       exact ((QE_same (s' := { s with counts := [], inTraffic := true }) rfl).trans (fwdTop_QI cfg hB hc _ _ (h1 _ _))).trans (QE_same rfl)
     · exact QE.refl B s
-  generalize (if cfg.timing && s.now - s.tTiming > 900 then { sendTiming cfg s with tTiming := s.now } else s) = s1 at g1
+  generalize (if cfg.timing && s.now - s.tTiming > cfg.pTiming then { sendTiming cfg s with tTiming := s.now } else s) = s1 at g1
   dsimp only
-  have g2 : QE B s1 (if s1.now - s1.tTraffic > 1000 then sendTraffic cfg s1 else s1) := by
+  have g2 : QE B s1 (if s1.now - s1.tTraffic > cfg.pTraffic then sendTraffic cfg s1 else s1) := by
     split
     · unfold sendTraffic
       refine (((QE_same (s' := { s1 with inTraffic := true }) rfl).trans (logAt_QI cfg hB hc 10 _)).trans
@@ -217,7 +217,7 @@ theorem ticks_QI (s : State) (h1 : ∀ a b, B (.timing a b) = false) (h2 : ∀ a
       obtain ⟨p, _, rfl⟩ := List.mem_map.mp hf
       exact h2 _ _ _ _
     · exact QE.refl B s1
-  generalize (if s1.now - s1.tTraffic > 1000 then sendTraffic cfg s1 else s1) = s2 at g2
+  generalize (if s1.now - s1.tTraffic > cfg.pTraffic then sendTraffic cfg s1 else s1) = s2 at g2
   refine (g1.trans g2).trans ?_
   split
   · unfold sendActive
